@@ -34,6 +34,7 @@ import (
 	"sort"
 	"strings"
 	"sync"
+	"time"
 
 	sasl "github.com/emersion/go-sasl"
 	"github.com/fluffle/goirc/client"
@@ -231,8 +232,12 @@ func c02SessionSasl(lines []string, tracking bool, stage int) *c02Res {
 		Beat("session-probe", c02Input(lines, tracking), pm)
 	}
 	r := &c02Res{}
-	o := RunSeq(vx.Options{}, func(env *vx.Env) {
+	fc := stage == -2 // flood protection on: the answers the lines provoke are rate-limited
+	o := RunSeq(vx.Options{Horizon: 48 * time.Hour}, func(env *vx.Env) {
 		var mod func(cfg *client.Config)
+		if fc {
+			mod = func(cfg *client.Config) { cfg.Flood = false }
+		}
 		if stage >= 0 {
 			mod = func(cfg *client.Config) {
 				cfg.EnableCapabilityNegotiation = true
@@ -275,8 +280,16 @@ func c02SessionSasl(lines []string, tracking bool, stage int) *c02Res {
 		s.Feed(all...)
 		s.VC.Send("\n\r\n \n\r\r\n")
 		vx.Quiesce()
+		if fc {
+			vx.Sleep(time.Hour) // every hold of the rate limiter expires
+			vx.Quiesce()
+		}
 		all = []string{c02Sync, c02Tail}
 		s.Feed(all...)
+		if fc {
+			vx.Sleep(time.Hour)
+			vx.Quiesce()
+		}
 		r.Wire = s.WireSince(n0)
 		r.NWrote = len(r.Wire)
 		for _, w := range r.Wire {
@@ -774,6 +787,35 @@ func c02Jobs(tier string) []Job {
 			jobs = append(jobs, c02SaslProbeJob(fmt.Sprintf("c02/probe-sasl/params<=%d/verb=%s/src=%d", maxParams, v, si), v, src, maxParams))
 		}
 	}
+	// (3c) the hand-picked lines and eight PINGs with flood protection on (what they provoke is written through the rate limiter)
+	jobs = append(jobs, Job{Name: "c02/flood-protected", Cost: 30, Run: func(jc *JobCtx) *JobResult {
+		e := NewEnum("c02/flood-protected")
+		fb := newFailBook(e)
+		lines := append([]string{}, c02Candidates()...)
+		for i := 0; i < 8; i++ {
+			lines = append(lines, fmt.Sprintf("PING :flood-%d", i), ":n!u@h PRIVMSG me :\x01VERSION\x01")
+		}
+		for _, tr := range []bool{false, true} {
+			for i := 0; i < len(lines); i += 40 {
+				j := i + 40
+				if j > len(lines) {
+					j = len(lines)
+				}
+				for _, l := range lines[i:j] {
+					e.Case(fmt.Sprintf("FC|%v|%s", tr, l))
+				}
+				c02CheckBatchSasl(fb, "session-floodctl", lines[i:j], tr, -2)
+				if fb.TooMany() || jc.Expired() {
+					e.Incomplete("stopped early")
+					fb.Flush()
+					return e.Done()
+				}
+			}
+		}
+		e.Sample(map[string]interface{}{"lines": len(lines), "first": lines[0]})
+		fb.Flush()
+		return e.Done()
+	}})
 	// (4)
 	const parts = 16
 	for _, tr := range []bool{false, true} {
@@ -802,7 +844,7 @@ func init() {
 			"only the exhaustive, length-bounded part of the quantifier is covered; the 'randomly and coverage-guided beyond that' part is sampling/fuzzing, a different technique, and is not done here",
 			"the alphabet has one representative per byte class the parser and the built-in handlers branch on; CR and LF cannot occur inside a line (recv splits on LF and trims CR/LF)",
 			"sessions run under the default schedule of the vx runtime; all lines of a session arrive in one segment after a 001 / JOIN prelude; a panic caught by the configured Recover (handlers) is not a crash, a panic on recv/runLoop/send is",
-			"families (3) and (4) run without SASL and with capability negotiation off (the CAP handler still runs on every CAP line); family (3b) repeats the probes of CAP, AUTHENTICATE, 903, 904, 908, 001, 433 and NICK with negotiation on and SASL PLAIN configured, before the server's CAP LS answer, with the initial response pending, and after 903",
+			"families (3) and (4) run without SASL and with capability negotiation off (the CAP handler still runs on every CAP line); family (3c) sends the hand-picked lines and eight PING / CTCP VERSION pairs with flood protection on (the answers go through the rate limiter; an hour of virtual time before the sync marker); family (3b) repeats the probes of CAP, AUTHENTICATE, 903, 904, 908, 001, 433 and NICK with negotiation on and SASL PLAIN configured, before the server's CAP LS answer, with the initial response pending, and after 903",
 			"teardown after the tail line (server EOF) is part of the session, but only a crash there is judged, not a deadlock (that is C07)",
 		},
 		Jobs: c02Jobs,
